@@ -52,7 +52,15 @@ def isa_cell(cell):
                 out.append({'msg': f'{name} at {hft} ft: {k} = {got[k]!r}, ISA gives {ref[k]!r} (rel {e:.2e} > 1e-4)', 'key': None})
         if abs((at.altitude >> U.Foot) - hft) > 1e-9 * max(1, abs(hft)):
             out.append({'msg': f'{name}: altitude {at.altitude >> U.Foot} != {hft}', 'key': None})
-    return {'v': out[:4], 'n': 4, 'nt': hft if hft != 0 else None, 'extra': {'max_isa_rel_err': worst}}
+    # a bare number is that number in the preferred distance unit (yards) - and never the same thing as a quantity with the same raw number
+    for label, arg, alt_ft in (('bare number (yards)', float(hft) / 3.0, float(hft)), ('Inch quantity with the same raw number', U.Inch(float(hft) / 3.0), hft / 36.0)):
+        if not -1400 <= alt_ft <= 36000:
+            continue
+        at = pb.Atmo.icao(arg)
+        Tq, Pq, drq, aq = isa(alt_ft)
+        if abs(at.density_ratio - drq) / drq > 1e-4 or abs((at.altitude >> U.Foot) - alt_ft) > 1e-6 * max(1.0, abs(alt_ft)):
+            out.append({'msg': f'Atmo.icao({label} {float(hft) / 3.0!r}) is an atmosphere at {at.altitude >> U.Foot!r} ft with density ratio {at.density_ratio!r}; expected {alt_ft!r} ft, ISA {drq!r}', 'key': None})
+    return {'v': out[:4], 'n': 6, 'nt': hft if hft != 0 else None, 'extra': {'max_isa_rel_err': worst}}
 
 
 STATIONS = {'std': None, 'hot': (28.0, 95.0, 60), 'cold': (31.0, -20.0, 10)}
@@ -214,6 +222,13 @@ def history(cell):
             st.humidity = hum
         fresh = pb.Atmo(st.altitude, st.pressure, st.temperature, hum)
         n += 1
+        if kind == 'std':
+            # every request for a standard atmosphere gives an independent, standard one - whatever was done to earlier ones
+            again = pb.Atmo.icao(U.Foot(a0))
+            dr_isa = isa(a0)[2]
+            if again is st or again.humidity != 0 or abs(again.density_ratio - dr_isa) / dr_isa > 1e-4:
+                out.append({'msg': f'after {ops[:k + 1]} on one standard atmosphere, a NEW Atmo.icao({a0} ft) has humidity {again.humidity} and density ratio {again.density_ratio!r} (ISA {dr_isa!r})', 'key': None})
+                break
         for q in (a0, a0 + 10.0, a0 + 31.0, a0 + 100.0, a0 + 5000.0, a0 - 500.0):
             got, exp = st.get_density_factor_and_mach_for_altitude(q), fresh.get_density_factor_and_mach_for_altitude(q)
             if got != exp:
